@@ -1457,6 +1457,7 @@ class Matricize(Contract):
         yield 'returns-array', ok
         if ok:
             vec = FA(0, d, lambda j: lst_get(me.col_dims, j) == 1)
+            yield 'non-empty', z3.And(*[x >= 1 for x in res.shape])
             if len(res.shape) == 1:
                 yield 'vector-iff-all-col-dims-1', vec
                 yield 'shape', res.shape[0] == Pr(0, d)
